@@ -156,6 +156,11 @@ def run(ctx, chk):
         C07.default_then(chk, cfg, "Reverse", "to_rev", ("ReverseMut", "rev"), "S-to")
         C07.default_then(chk, cfg, "Complement", "to_comp", ("ComplementMut", "comp"), "S-to")
         C07.default_then(chk, cfg, "ReverseComplement", "to_revcomp", ("ReverseComplementMut", "revcomp"), "S-to")
+    import core
+    for cfg in ctx.configs():
+        chk.cfg = cfg.name
+        # "agree with the same operation on the equivalent sequence": the sequence side is C07's loops and defaults
+        core.import_rows(chk, cfg, "C07", "props.C07", ("S-rev", "S-comp", "S-to", "T-involution"))
     chk.floor("k-mer operation rows", nrows, 9 * len(chk.configs))
 
 
